@@ -78,7 +78,11 @@ CHECKS = {
                      step("VerifC02Graph", {"tasks": 3}, {"tasks": 3}, reach=["cyclic", "acyclic", "fan-in"]),
                      step("VerifC02Graph", {"tasks": 4, "dagonly": 1, "permutemode": 1, "concretenames": 1}, {"tasks": 4, "dagonly": 1, "permutemode": 1, "concretenames": 1}, reach=["acyclic", "fan-in"]),
                      # every labelled DAG on 5 tasks (names by rank), one map iteration order: accepted, listed in a topological order
-                     step("VerifC02Graph", {"tasks": 5, "dagonly": 1, "concretenames": 1}, {"tasks": 5, "dagonly": 1, "concretenames": 1}, reach=["acyclic"]), SELFTEST]},
+                     step("VerifC02Graph", {"tasks": 5, "dagonly": 1, "concretenames": 1}, {"tasks": 5, "dagonly": 1, "concretenames": 1}, reach=["acyclic"]),
+                     # dependencies listed twice in depends_on (accepted by the loader): every DAG on 4 tasks x every doubling x every name order
+                     step("VerifC02Graph", {"tasks": 4, "dagonly": 1, "concretenames": 1, "dupdeps": 1, "permute": 1}, {"tasks": 4, "dagonly": 1, "concretenames": 1, "dupdeps": 1, "permute": 1}, reach=["acyclic", "dependency-listed-twice"]),
+                     # every labelled DAG on 6 tasks (names in rank order = map insertion order): accepted (3.78 M paths)
+                     step("VerifC02Graph", {}, {"tasks": 6, "alldags": 1, "concretenames": 1, "permute": 1, "acceptonly": 1}, reach=["acyclic"], thorough_only=True), SELFTEST]},
     "C03": {"prefixes": ["C03."], "assumptions": L3_ASSUME, "validate_samples": {"quick": 1, "thorough": 3},
             "runs": [bmc({"K": 4, "N": 4}, {"K": 5, "N": 4}, reach=["state.waiting", "cancel.waiting"]), bmcB(reach=["state.three-waiting"]),
                      bmc({"K": 4, "N": 3, "reloads": 1, "reservedvar": 0, "taskerr": 0}, {"K": 5, "N": 3, "reloads": 1, "taskerr": 0}, reach=["reload"])]},
@@ -95,7 +99,10 @@ CHECKS = {
     "C15": {"prefixes": ["C15."], "assumptions": L3_ASSUME, "validate_samples": {"quick": 1, "thorough": 3},
             "runs": [bmc({"K": 4, "N": 4}, {"K": 5, "N": 4}, reach=["end"]),
                      step("VerifC02Graph", {"tasks": 2}, {"tasks": 3}, reach=["cyclic", "acyclic"]),
-                     step("VerifC02Graph", {"tasks": 5, "dagonly": 1, "concretenames": 1}, {"tasks": 5, "dagonly": 1, "concretenames": 1}, reach=["acyclic"]), SELFTEST, C05STEP]},
+                     step("VerifC02Graph", {"tasks": 5, "dagonly": 1, "concretenames": 1}, {"tasks": 5, "dagonly": 1, "concretenames": 1}, reach=["acyclic"]), SELFTEST, C05STEP,
+                     # HTTP API level: the real handlers of GET /pipelines/, /pipelines/jobs, /job/detail against a runner started from an arbitrary snapshot
+                     {"pkg": "github.com/Flowpack/prunner/server", "harness": ["harness/server"], "entry": "VerifC15Api", "quick": {"NJ": 1}, "thorough": {"NJ": 2},
+                      "reach": ["pipelines", "pipelines-jobs", "detail", "running-job", "waiting-job", "queue-full"]}]},
     "C16": {"prefixes": ["C16."], "assumptions": L3_ASSUME, "validate_samples": {"quick": 1, "thorough": 3},
             "runs": [bmc({"K": 4, "N": 3, "reloads": 1, "reservedvar": 0, "taskerr": 0}, {"K": 5, "N": 3, "reloads": 1, "taskerr": 0}, reach=["reload"]), RELOAD]},
     "C17": {"prefixes": ["C17."],
